@@ -232,7 +232,18 @@ func (n *Node) IndexAt(h uint32) int {
 }
 
 // Active tells whether the node takes an active part at its current height.
-func (n *Node) Active() bool { return n.D != nil && !n.D.Context.WatchOnly() }
+// Active: a validator of its current height whose application has not set the watch-only flag - by the harness' own
+// knowledge, not by what the library's context reports about itself.
+func (n *Node) Active() bool {
+	if n.D == nil || n.WatchFlag {
+		return false
+	}
+	h := n.Tip + 1 // not started yet: the height it is going to start at
+	if n.D.Validators != nil {
+		h = n.D.BlockIndex
+	}
+	return n.IndexAt(h) >= 0
+}
 
 func (n *Node) pubs(h uint32) []dbft.PublicKey {
 	ids := n.W.Cfg.Validators(h)
@@ -342,6 +353,12 @@ func (n *Node) newDBFT() {
 			dbft.WithProcessPreBlock[vt.H](n.cbProcessPreBlock),
 			dbft.WithVerifyPreBlock[vt.H](func(b dbft.PreBlock[vt.H]) bool {
 				ok := n.verifyTxs(b.Transactions())
+				if pb, is := b.(*vt.PreBlock); is && !w.Cfg.AMEVOn(pb.Idx) {
+					// a plain dBFT 2.0 height: the application has nothing to say about pre-blocks there (the library's
+					// default answer); its verdict on the block is what VerifyBlock returns
+					w.Stat("verifypreblock_below_enabling_height")
+					ok = true
+				}
 				n.ev(EvVerifyPreBlock, nil, fmt.Sprint(ok))
 				for _, m := range w.Mons {
 					if m.VerifyBlock != nil {
